@@ -11,14 +11,14 @@ CONTRACTS = [
     'bitcoinlib.scripts.encode_num[reencode]',
     'bitcoinlib.scripts.decode_num',
     'bitcoinlib.scripts.decode_num[roundtrip]',
-] + ['bitcoinlib.scripts.Script.serialize[cmds-%s]' % (''.join(v) or 'none') for k in range(4) for v in __import__('itertools').product('od', repeat=k)]
+] + ['bitcoinlib.scripts.Script.serialize[cmds-%s]' % (''.join(v) or 'none') for k in range(4) for v in __import__('itertools').product('od', repeat=k)] + ['bitcoinlib.scripts.Script.serialize[any-count]']
 LEVEL = 'proof'
 TRUSTED = []
 EXPLANATION = ''
 LEVEL_TEXT = ('Every listed function of /repo is verified against a protocol-level specification for all inputs (no bound): '
               'CompactSize encode/decode and var_str, data pushes, script numbers (encode, decode, both round trips). Script.serialize is verified '
-              'against the protocol definition for every opcode value and every data item of every length, BOUNDED in the number of commands '
-              '(one case per kind vector of up to 3 commands, loop unrolled). Script.parse_bytesio is OUTSIDE the verifier (object construction, '
+              'against the protocol definition for every opcode value and every data item, for ANY number of commands (loop invariant over a left fold; elements are '
+              'opcodes 0..255 or data items of 0..65535 bytes) and additionally per kind vector of up to 3 commands (loop unrolled, data of any length incl. the refused > 65535). Script.parse_bytesio is OUTSIDE the verifier (object construction, '
               'recursive sub-script detection): the parse -> items -> serialize round trip is a BOUNDED native stand-in over an enumerated script family '
               '(bounded/c18_scripts.py), not counted as proved. Obligations are generated from the current source on every run.')
 LEVEL_NOTE = ('Trusted: the pyvc VC generator and its Python semantics (DESIGN §2.10), z3/cvc5, the spec functions in spec/wire.py. '
